@@ -70,6 +70,13 @@ Theorem C20_no_deadlock : forall (c : cfg), 1 <= f c -> forall t0 es s, run c (i
 Proof. exact no_deadlock. Qed.
 Print Assumptions C20_no_deadlock.
 
+(* interrupts never break the fanout limit either: with the signals thread, cancellations, faults and time-outs
+   all in the picture, at most f connections are in flight in every reachable state *)
+Theorem C20_fanout_bound_under_interrupts : forall (c : cfg), 1 <= f c -> forall t0 es s, run c (init c t0) es = Some s ->
+  exited s = None -> inflight s <= f c /\ 0 <= tc s <= f c.
+Proof. exact bound_always. Qed.
+Print Assumptions C20_fanout_bound_under_interrupts.
+
 (* a host cancelled while connecting is still covered by the connect timeout (the defect repaired
    in dsh.c: the watchdog used to skip cancelled slots): C07_deadline includes cancelled workers *)
 Example C20_canceled_connecting_has_deadline :
